@@ -45,7 +45,7 @@ NWStar == URep(UWCls(TRUE), 0, Inf, TRUE)
 NWPlus == URep(UWCls(TRUE), 1, Inf, TRUE)
 QuickOptSets == { Plain, [Plain EXCEPT !.ci = TRUE], [Plain EXCEPT !.crlf = TRUE], [Plain EXCEPT !.word = TRUE],
                   [Plain EXCEPT !.line = TRUE, !.inv = TRUE], [Plain EXCEPT !.smart = TRUE, !.word = TRUE],
-                  [Plain EXCEPT !.nul = TRUE] }
+                  [Plain EXCEPT !.nul = TRUE], [Plain EXCEPT !.crlf = TRUE, !.line = TRUE] }
 MCSeeds == {[o |-> o, fam |-> f, pats |-> <<>>, fixed |-> FALSE] : o \in OptSets, f \in Fams \cup {"altlit"}}
 MCSeedsQuick == {[o |-> o, fam |-> f, pats |-> <<>>, fixed |-> FALSE] : o \in QuickOptSets, f \in (Fams \ {"cat"}) \cup {"catq", "innerq", "altlit"}}
 Sc(ps, o, fx) == [pats |-> ps, o |-> o, fixed |-> fx, fam |-> "", sel |-> <<>>]
